@@ -10,6 +10,7 @@ ID = "C01"
 TRUSTED = ["harness/translate_kernel.py: fail-closed ast translator of _find_prob / _are_you_my_child / find_children / "
            "is_parent_around / _recursive_restore_prob_order / initalize_base_structures (other methods of the class they call are inlined) into gen/Kernel_gen.v (accepted subset and "
            "conventions in its header; out-of-range subscripts = the parameters undef_prob/undef_node), and the runtime KernelRt.v it targets",
+           __import__("queue_tie").TRUSTED,
            "CPython heapq returns a minimal element w.r.t. QueueItem.__lt__ (queue contract pop_ok)",
            "tables handed to the model are the ones the real loader produced (the loader's own model: C07/C14)"]
 ASSUMES = ["ruleset well-formed (wf): group probabilities in [0,1], listed non-increasing, base probabilities finite >= 0"]
@@ -105,6 +106,8 @@ def explore(ctx, which):
             corr.append(("next-run:" + name, True, ""))
     import kernel_tie
     corr.append(kernel_tie.obligation())
+    import queue_tie
+    corr.append(queue_tie.obligation())
     rule = ("random rulesets (1-4 base structures + duplicates, 1-5 positions, types drawn with repetition, 1-5 "
             "probability groups per variable, probabilities from a pool built to collide: ties, dyadics, one-ulp "
             "neighbours, subnormals, 0.0, 1.0; every tenth ruleset from the near-tie family: three or four two-group variables whose "
